@@ -1175,10 +1175,14 @@ class Harness:
             if self.kind == "deco":
                 ckw["on_metric"] = self.shape(self.on_metric)
                 ckw["on_log"] = self.shape(self.on_log)
-            else:
+            elif (rec.idx or 0) % 2:
                 # a fresh pair of hook objects for every call, each tied to its own call's record
                 ckw["on_metric"] = self.shape(lambda event, attempt, sleep_s, tags, _r=rec: self.on_metric(event, attempt, sleep_s, tags, _r))
                 ckw["on_log"] = self.shape(lambda event, fields, _r=rec: self.on_log(event, fields, _r))
+            else:
+                # hooks are plain callables taking positional arguments: the caller's own parameter names are nobody's business
+                ckw["on_metric"] = self.shape(lambda name, n, delay, labels, _r=rec: self.on_metric(name, n, delay, labels, _r))
+                ckw["on_log"] = self.shape(lambda name, record, _r=rec: self.on_log(name, record, _r))
         only = self.sc.get("hook_set", "both")
         if only == "log":
             ckw.pop("on_metric", None)  # just a log sink attached
